@@ -40,6 +40,8 @@ VARIANTS = {
     "noexc": ("clang++", SAN + ["-fsanitize=fuzzer-no-link", "-fno-exceptions"], [], SAN),
     "noguard": ("clang++", SAN + ["-DCPPUTEST_DISABLE_MEM_CORRUPTION_CHECK"], [], SAN),
     "tsan": ("g++", ["-fsanitize=thread"], [], ["-fsanitize=thread", "-pthread"]),
+    # development only (bin/coverage.py): source coverage of the library under a harness; never used by a registered check
+    "cov": ("clang++", ["-fprofile-instr-generate", "-fcoverage-mapping"], [], ["-fprofile-instr-generate", "-fcoverage-mapping"]),
     "plain": ("clang++", ["-fsanitize=undefined", "-fno-sanitize-recover=undefined"], [],
               ["-fsanitize=undefined", "-fno-sanitize-recover=undefined"]),
 }
